@@ -3,5 +3,5 @@
 B=${1:-900}
 S=${2:-100}
 for c in C06 C07 C08 C09 C11 C12 C13 C14 C15 C16 C17 C18 C19 C20; do
-  VERIF_SEED=$S VERIF_BUDGET_S=$B VERIF_EVIDENCE_DIR=./_soak_evidence VERIF_REPLAY_DIR=./_soak_replays /venv/bin/python ./run.py check $c --tier thorough 2>&1 | grep -v "^KNOWN-FINDING" | tail -6
+  VERIF_SEED=$S VERIF_BUDGET_S=$B VERIF_EVIDENCE_DIR=${VERIF_SOAK_DIR:-$PWD}/_soak_evidence VERIF_REPLAY_DIR=${VERIF_SOAK_DIR:-$PWD}/_soak_replays /venv/bin/python ./run.py check $c --tier thorough 2>&1 | grep -v "^KNOWN-FINDING" | tail -6
 done
